@@ -245,6 +245,9 @@ impl Prop for C06 {
     let c = cal();
     match t {
       "days" => {
+        // route equivalence of the objects this property reads (see routes.rs)
+        prop_run(env, out, "routes", env.tier.pick(1600, 64000) / nshards as u32, 8800 + shard as u64, crate::routes::date_strategy(), &ev);
+        out.set_exhaustive("routes", false);
         // strided walks on fresh threads (see engine::stride_walks)
         stride_walks(env, out, "day2term", env.tier.pick(3200, 96000) / nshards as u32, 7000 + shard as u64, 0, (crate::model::NDAYS as i64), 400, &|x| vec![x], &ev);
         stride_walks(env, out, "time2term", env.tier.pick(1600, 48000) / nshards as u32, 7100 + shard as u64, 0, (crate::model::NDAYS as i64), 400, &|x| vec![x, (x * 7919).rem_euclid(86400)], &ev);
@@ -317,6 +320,7 @@ impl Prop for C06 {
       "step" => self.eval_step(env, out, case),
       "day2term" => self.eval_day2term(env, out, case),
       "time2term" => self.eval_time2term(env, out, case),
+      "routes" => crate::routes::compare_day_routes(env, out, "routes", case, (case.a[0].clamp(0, crate::model::NDAYS as i64 - 1)) as usize, &crate::routes::fields_c06),
       _ => panic!("unknown sub-check {}", sub),
     }
   }
